@@ -192,3 +192,22 @@ pub fn c16_umad() {
 fn p_c16_umad() {
     c16_umad()
 }
+
+#[cfg(kani)]
+#[kani::proof]
+fn p_probe_a() {
+    // ChaCha block function alone
+    use rand::SeedableRng;
+    let mut r = rand_chacha_probe();
+    let _ = rand::RngCore::next_u32(&mut r);
+}
+#[cfg(kani)]
+fn rand_chacha_probe() -> rand::rngs::StdRng {
+    use rand::SeedableRng;
+    rand::rngs::StdRng::seed_from_u64(1)
+}
+#[cfg(kani)]
+#[kani::proof]
+fn p_probe_b() {
+    let _ = rand::rng();
+}
